@@ -10,6 +10,7 @@ mod qosm;
 mod sim;
 mod stdtimer;
 mod timeconv;
+mod wack;
 mod winst;
 mod wire;
 
@@ -98,6 +99,16 @@ fn main() {
                 "Entities" => {
                     let cfgc = cfg.clone();
                     let make = || ent::EntModel::new(&cfgc);
+                    if args[1] == "replay" {
+                        replay::replay_graph(&arg(&args, "--edges").expect("--edges"), &make, maxdiv).json
+                    } else {
+                        let ops: Value = serde_json::from_str(&std::fs::read_to_string(arg(&args, "--ops").expect("--ops")).unwrap()).unwrap();
+                        replay::replay_ops(ops.as_array().unwrap(), &make)
+                    }
+                }
+                "WriterAcks" => {
+                    let cfgc = cfg.clone();
+                    let make = || wack::WAckModel::new(&cfgc);
                     if args[1] == "replay" {
                         replay::replay_graph(&arg(&args, "--edges").expect("--edges"), &make, maxdiv).json
                     } else {
